@@ -147,7 +147,16 @@ def _fit(d, n_tasks, pool_size):
 
 
 def decode_task(task):
-    """(kind, rows-or-range, start, file, helper, n_linear|None, rng|None) from a task tuple."""
+    """(kind, rows-or-range, start, rng|None) from a task tuple; ("unknown", ...) if the layout is not the
+    one this observer knows (the observation is then lost, never turned into a violation)."""
+    try:
+        return _decode_task(task)
+    except Exception:  # noqa: BLE001
+        rng = next((x for x in (task if isinstance(task, (tuple, list)) else ()) if isinstance(x, np.random.Generator)), None)
+        return "unknown", None, None, rng
+
+
+def _decode_task(task):
     first = task[0]
     if isinstance(first, tuple) and len(first) == 2:
         kind = "range"
@@ -155,6 +164,8 @@ def decode_task(task):
     else:
         kind = "idx"
         rows = np.array(first)
+        if rows.ndim != 1 or rows.dtype.kind not in "iu":
+            raise ValueError("not an index array")
     start = task[1]
     rest = list(task[2:])
     rng = None
@@ -390,8 +401,12 @@ class SimPool:
                         fields.append(np.random.Generator(bg))
                 elif isinstance(x, np.ndarray):
                     fields.append(x.copy())
+                elif isinstance(x, (str, int, float, bool, type(None))) or (isinstance(x, tuple) and all(isinstance(y, (int, float, str)) for y in x)):
+                    fields.append(x)
                 else:
-                    fields.append(pickle.loads(pickle.dumps(x)) if not isinstance(x, (str, int, float, tuple)) else x)
+                    import dill  # what multiprocess uses: copes with objects plain pickle refuses
+
+                    fields.append(dill.loads(dill.dumps(x)))
             out.append(tuple(fields))
         return out
 
